@@ -187,6 +187,10 @@ def flatten(m: h.Instantiable) -> h.Instantiable:
         raise ValueError(f"Anonymous Module {m} cannot be flattened. (Give it a name.)")
     new_module = h.Module(m.name + "_flat")
     for port in m.ports.values():
+        if ":" in port.name:
+            # Such a name could equal the path-name given to a net from further down the hierarchy
+            msg = f"Cannot flatten Port `{port.name}`, whose name includes the path-separator `:`"
+            raise ValueError(msg)
         new_module.add(copy.copy(port))
 
     # add all signals to the root level
